@@ -8,13 +8,12 @@ GROUPS = [
 META = {'enforced_elsewhere': ['skip_extension_payload']}
 _RT = dict(cls='B', tu='C16_roundtrip.c', dfcc=False, canary='real', functions=['opus_packet_extensions_generate', 'opus_packet_extensions_parse',
            'opus_packet_extensions_count', 'opus_extension_iterator_next', 'write_extension', 'write_extension_payload', 'skip_extension', 'skip_extension_payload'])
-GROUPS += [
- dict(_RT, name='ext_roundtrip_2x2', entry='h_ext_roundtrip', unwind=12, timeout=1200, expect_canaries=2,
-      bounds='<= 2 extensions over <= 2 frames, long payload <= 2 bytes', what='generate -> parse round trip, dry-run size == written size, exact-size buffer suffices, one byte less refused'),
- dict(_RT, name='ext_arbitrary_5', entry='h_ext_arbitrary', unwind=8, timeout=1200,
-      bounds='<= 5 arbitrary bytes, <= 3 frames', what='iterator / count / parse on arbitrary bytes: in-bounds results, existing frames, mutual agreement'),
- dict(_RT, name='ext_roundtrip_3x3', entry='h_ext_roundtrip', tier='thorough', unwind=16, timeout=3600, expect_canaries=2, mem_gb=24,
-      defines=['-DVERIF_NEXT=3', '-DVERIF_NFRAMES=3', '-DVERIF_PAYLOAD=2'], bounds='<= 3 extensions over <= 3 frames, payload <= 2', what='round trip, larger bound'),
- dict(_RT, name='ext_arbitrary_8', entry='h_ext_arbitrary', tier='thorough', unwind=11, timeout=3600, defines=['-DVERIF_RAW=8'], mem_gb=24,
-      bounds='<= 8 arbitrary bytes', what='arbitrary bytes, larger bound'),
-]
+for (_n, _f, _p, _tier) in ((1, 1, 2, 'quick'), (2, 2, 1, 'quick'), (2, 1, 2, 'thorough'), (3, 2, 1, 'thorough'), (2, 3, 2, 'thorough'), (3, 3, 2, 'thorough')):
+    GROUPS.append(dict(_RT, name='ext_roundtrip_%dx%d' % (_n, _f), entry='h_ext_roundtrip', unwind=4 + _n + _f, timeout=3600, expect_canaries=2, tier=_tier, mem_gb=20,
+        defines=['-DVERIF_NEXT=%d' % _n, '-DVERIF_NFRAMES=%d' % _f, '-DVERIF_PAYLOAD=%d' % _p],
+        bounds='exactly %d extensions over %d frames (ids, frames, lengths, payload bytes symbolic), long payload <= %d bytes' % (_n, _f, _p),
+        what='generate -> parse round trip, dry-run size == written size, exact-size buffer suffices, one byte less refused'))
+for (_l, _f, _tier) in ((3, 2, 'quick'), (4, 2, 'quick'), (5, 3, 'thorough'), (6, 3, 'thorough')):
+    GROUPS.append(dict(_RT, name='ext_arbitrary_%d' % _l, entry='h_ext_arbitrary', unwind=_l + 3, timeout=3600, tier=_tier, mem_gb=20,
+        defines=['-DVERIF_RAW=%d' % _l, '-DVERIF_RAW_NF=%d' % _f], bounds='%d arbitrary bytes, %d frames' % (_l, _f),
+        what='iterator / count / parse on arbitrary bytes: in-bounds results, existing frames, mutual agreement'))
